@@ -80,14 +80,24 @@ func defTokens(text string) (ids []int64, tokens [][]int64, distinct []bool) {
 }
 
 // buildIR builds the module of a vector through the ir API.
-// Definitions without operands at an even position are specialised nodes
-// (DIBasicType), the others tuples: AssignMetadataIDs must treat all kinds alike.
+// Definitions without operands at an odd position are specialised nodes of
+// several kinds, the others tuples: AssignMetadataIDs must treat all kinds alike.
 func buildIR(ids []int64, refs [][]int) (*ir.Module, []metadata.Definition) {
 	m := ir.NewModule()
 	ts := make([]metadata.Definition, len(ids))
 	for i := range ids {
 		if len(refs[i]) == 0 && i%2 == 1 {
-			ts[i] = &metadata.DIBasicType{Name: "t"}
+			// leaf definitions referenced from tuple fields: a different specialised kind per shape
+			switch (i + len(ids)) % 4 {
+			case 0:
+				ts[i] = &metadata.DIBasicType{Name: "t"}
+			case 1:
+				ts[i] = &metadata.DIExpression{}
+			case 2:
+				ts[i] = &metadata.DIFile{Filename: "a.c", Directory: "/d"}
+			default:
+				ts[i] = &metadata.DIEnumerator{Name: "e", Value: 1}
+			}
 		} else {
 			ts[i] = &metadata.Tuple{}
 		}
@@ -200,12 +210,13 @@ type parseRow struct {
 	Pat     map[string]interface{} `json:"pat,omitempty"`
 	Want    interface{}            `json:"want"`
 	Obs     observation            `json:"obs"`
+	Obs2    observation            `json:"obs2"` // the printed module parsed again
 	Printed printed                `json:"printed"`
 	// not part of the judged record
 	freeSites bool // the attachment sites of this text are not prescribed: only identity is judged there
 	text      string
-	name string
-	kind map[int64]string
+	name      string
+	kind      map[int64]string
 }
 
 func renderOp(o op) string {
@@ -469,6 +480,17 @@ func processParseRows(rep *mbt.Report, rows []*parseRow, canonEvery, off int) []
 			return
 		}
 		r.Printed.IDs, r.Printed.Tokens, _ = defTokens(text)
+		// parse what was printed: every reference must come back as the node of definition !N
+		var m2 *ir.Module
+		var perr2 error
+		if msg, p := mbt.Guard(func() { m2, perr2 = asm.ParseString("printed.ll", text) }); p || perr2 != nil {
+			if perr2 != nil {
+				msg = perr2.Error()
+			}
+			out[i].fail = &mbt.Failure{Signature: "C17|print|reparse-fails|" + r.Src + r.kindTag(), What: fmt.Sprintf("%s: the printed module cannot be parsed again: %s", r.name, mbt.Truncate(msg, 300)), Case: caseOf}
+			return
+		}
+		r.Obs2 = observe(m2, r.Src == "graph")
 		if doCanon {
 			canonOut, ok2, diag2 := llvmoracle.Canon(text)
 			mu.Lock()
@@ -494,7 +516,7 @@ func processParseRows(rep *mbt.Report, rows []*parseRow, canonEvery, off int) []
 		}
 		if out[i].fail != nil {
 			rep.Fail(*out[i].fail)
-			if strings.HasPrefix(out[i].fail.Signature, "C17|parse|") || strings.HasPrefix(out[i].fail.Signature, "C17|print|panic") {
+			if strings.HasPrefix(out[i].fail.Signature, "C17|parse|") || strings.HasPrefix(out[i].fail.Signature, "C17|print|panic") || strings.HasPrefix(out[i].fail.Signature, "C17|print|reparse") {
 				continue
 			}
 		}
@@ -589,16 +611,19 @@ func judge(rep *mbt.Report, irRows []irRow, vectors []irVector, prs []*parseRow)
 		}
 		r := prs[ri-1]
 		rep.Fail(mbt.Failure{Signature: "C17|parse|" + law + "|" + r.Src + r.kindTag(),
-			What: fmt.Sprintf("%s: law %s fails on the parsed module: %s", r.name, law, explain(r)),
+			What: fmt.Sprintf("%s: law %s fails on the parsed module: %s", r.name, law, explain(r, law)),
 			Case: map[string]interface{}{"kind": "parse", "src": r.Src, "name": r.name, "text": r.text, "want": r.Want, "pat": r.Pat}})
 	}
 }
 
 // explain names the first place where the observation differs from what is required.
-func explain(r *parseRow) string {
+func explain(r *parseRow, law string) string {
 	var w, o map[string]interface{}
 	wb, _ := json.Marshal(r.Want)
 	ob, _ := json.Marshal(r.Obs)
+	if strings.HasSuffix(law, "-after-reprint") {
+		ob, _ = json.Marshal(r.Obs2)
+	}
 	json.Unmarshal(wb, &w)
 	json.Unmarshal(ob, &o)
 	js := func(v interface{}) string { b, _ := json.Marshal(v); return mbt.Truncate(string(b), 300) }
